@@ -82,7 +82,13 @@ impl Check for C13Direct {
             B(BasicFilter),
         }
         let mut f = if kalman { F::K(KalmanFilter::new(cfg)) } else { F::B(BasicFilter::new(gain)) };
-        let n = ch.range(S_WORK, 2, 60);
+        // mostly short adversarial histories; one in twenty-five is long (counters inside the servo that
+        // only move after hundreds of measurements), half of those a slow random walk inside the step
+        // threshold so that the filter keeps running instead of re-initialising
+        let long = ch.chance(S_WORK, 1, 25);
+        let n = if long { ch.range(S_WORK, 200, 1200) } else { ch.range(S_WORK, 2, 60) };
+        let walk = long && ch.boolean(S_WORK);
+        let mut walk_raw: i128 = 0;
         let mut ev_time: u128 = start_local as u128;
         let mut history: Vec<String> = Vec::new();
         let mut panics = 0u64;
@@ -91,7 +97,7 @@ impl Check for C13Direct {
         let mut prev: Option<Measurement> = None;
         for i in 0..n {
             // passage of time on the underlying clock
-            let adv = match ch.choose(S_WORK, 5) {
+            let adv = match if walk { 4 } else { ch.choose(S_WORK, 5) } {
                 0 => 0,
                 1 => ch.range(S_WORK, 1, 1000) as u128 * US,
                 2 => ch.range(S_WORK, 1, 4) as u128 * SEC,
@@ -102,25 +108,30 @@ impl Check for C13Direct {
             time.seq.set(i);
             // event time: forward with the clock, equal to the previous, backwards, or far ahead
             let now_local = model.borrow().local_at(time.now.get()).max(0) as u128;
-            ev_time = match ch.choose(S_WORK, 8) {
+            ev_time = match if walk { 7 } else { ch.choose(S_WORK, 8) } {
                 0 => ev_time,                                    // equal / repeated
                 1 => ev_time.saturating_sub(ch.range(S_WORK, 1, 5_000_000) as u128 * US), // backwards
                 2 => now_local + ch.range(S_WORK, 1, 1000) as u128 * MS, // ahead of the clock
                 _ => now_local,
             };
-            let kind = ch.choose(S_WORK, 6);
+            let kind = if walk { (i % 2) * 2 } else { ch.choose(S_WORK, 6) };
             let mut m = Measurement::default();
             m.event_time = units_to_time(ev_time);
             match kind {
                 0 | 1 => {
-                    let raw = pick_offset(ch);
+                    let raw = if walk {
+                        walk_raw += ch.irange(S_WORK, -20_000, 20_000) as i128 * NS as i128;
+                        walk_raw
+                    } else {
+                        pick_offset(ch)
+                    };
                     m.raw_sync_offset = Some(units_to_duration(raw));
                     if ch.boolean(S_WORK) {
                         m.offset = Some(units_to_duration(raw - 100 * US as i128));
                     }
                 }
                 2 => {
-                    let raw = pick_offset(ch);
+                    let raw = if walk { -walk_raw + 2 * 100 * US as i128 + ch.irange(S_WORK, -20_000, 20_000) as i128 * NS as i128 } else { pick_offset(ch) };
                     m.raw_delay_offset = Some(units_to_duration(raw));
                     if ch.boolean(S_WORK) {
                         m.delay = Some(units_to_duration(pick_offset(ch)));
